@@ -488,9 +488,20 @@ func (s *Session) Serve(h Handler) (err error) {
 	}()
 
 	for {
+		s.stateMutex.RLock()
+		ctx := s.in.ctx
+		s.stateMutex.RUnlock()
 		select {
-		case <-s.in.ctx.Done():
-			return s.in.ctx.Err()
+		case <-ctx.Done():
+			s.stateMutex.RLock()
+			replaced := s.in.ctx != ctx
+			s.stateMutex.RUnlock()
+			if replaced {
+				// SetCloseDeadline installed a new context (and ended the old
+				// one): that is not the deadline passing, go on with the new one.
+				continue
+			}
+			return ctx.Err()
 		default:
 		}
 		err := handleInputStream(s, h)
@@ -952,8 +963,11 @@ func (s *Session) RemoteAddr() jid.JID {
 // as closed and any blocking calls to Serve will return an error.
 // This is normally called just before a call to Close.
 func (s *Session) SetCloseDeadline(t time.Time) error {
+	ctx, cancel := context.WithDeadline(context.Background(), t)
+	s.stateMutex.Lock()
 	oldCancel := s.in.cancel
-	s.in.ctx, s.in.cancel = context.WithDeadline(context.Background(), t)
+	s.in.ctx, s.in.cancel = ctx, cancel
+	s.stateMutex.Unlock()
 	if oldCancel != nil {
 		oldCancel()
 	}
